@@ -1247,8 +1247,36 @@ def _processor_ref_rewrites(cn: ast.AST, e: ast.AST, cfg_param: str, guarded: bo
     return [e]
 
 
-def sweep_metadata(repo: Repo, R: Report) -> None:
-    r = R.rule("C05-D2-sweep-definition-in-metadata", "generated sweep classes carry no identity in processor_ref; the whole sweep definition (wrapped processor, expression signatures, variable domains, mode, broadcast, collection, dependencies) is in the preprocessor metadata, and the same metadata object enriches the canonical nodes on the inspection and the run-time path; a string processor reference is hashed as written", 12)
+# metadata entry -> the parameter(s) of the factory's public entry point that carry this part of the sweep definition
+_DEFINITION_PARAMS = {
+    "element_ref": ("element",), "param_expressions": ("parametric_expressions",), "variables": ("vars",), "mode": ("mode",),
+    "broadcast": ("broadcast",), "collection": ("collection_output",), "dependencies": ("element", "parametric_expressions"),
+}
+
+
+def _attrs_read_of(nodes: Iterable[ast.AST], obj: Optional[str]) -> Set[str]:
+    """Names of the attributes read from the local *obj* in *nodes*: `obj.a`, `getattr(obj, 'a', ..)`."""
+    out: Set[str] = set()
+    for x in nodes:
+        if isinstance(x, ast.Attribute) and isinstance(x.value, ast.Name) and x.value.id == obj:
+            out.add(x.attr)
+        elif isinstance(x, ast.Call) and call_attr(x) == "getattr" and len(x.args) >= 2 and isinstance(x.args[0], ast.Name) and x.args[0].id == obj and isinstance(x.args[1], ast.Constant) and isinstance(x.args[1].value, str):
+            out.add(x.args[1].value)
+    return out
+
+
+def _admits_none(fn: ast.AST, param: str) -> bool:
+    """The annotation of the parameter *param* of *fn* admits None (`X | None`, `Optional[X]`)."""
+    a = fn.args
+    ann = next((x.annotation for x in a.posonlyargs + a.args + a.kwonlyargs if x.arg == param), None)
+    if ann is None:
+        return False
+    return any((isinstance(x, ast.Constant) and x.value is None) or (isinstance(x, (ast.Name, ast.Attribute)) and (dotted_name(x) or "").rpartition(".")[2] == "Optional") for x in ast.walk(ann))
+
+
+def _sweep_factory(repo: Repo) -> Tuple[ast.AST, List[ast.AST], ast.AST, str, str, List[ast.AST]]:
+    """(entry point, maker functions, the function that builds the published sweep definition, its qualified name, its
+    name as called, the values the generated classes store under 'preprocessor') of the sweep factory module."""
     create = repo.func(SWEEP, "ParametricSweepFactory.create")
     smod = repo.module(SWEEP)
     # the functions of the factory module that the public entry point runs (itself, helpers it was split into)
@@ -1268,31 +1296,51 @@ def sweep_metadata(repo: Repo, R: Report) -> None:
         pm0 = cands[0] if len(cands) == 1 else None
     if not isinstance(pm0, FuncNode):
         raise AnalysisError("_preprocessor_metadata not found")
-    pm_q = qualname_of(pm0)
+    return create, makers, pm0, qualname_of(pm0), bname, hook_vals
+
+
+def sweep_metadata(repo: Repo, R: Report) -> None:
+    r = R.rule("C05-D2-sweep-definition-in-metadata", "generated sweep classes carry no identity in processor_ref; the whole sweep definition (wrapped processor, expression signatures, variable domains, mode, broadcast, collection, dependencies) is in the preprocessor metadata, and the same metadata object enriches the canonical nodes on the inspection and the run-time path; a string processor reference is hashed as written", 12)
+    create, makers, pm0, pm_q, bname, hook_vals = _sweep_factory(repo)
     pm = NF(repo, SWEEP, pm_q)
     pm_ps = _params_of(pm)
     if isinstance(parent(pm0), ast.ClassDef) and not any(dotted_name(d) == "staticmethod" for d in pm0.decorator_list):
         pm_ps = pm_ps[1:]  # the receiver is not the described class
     cls_p = pm_ps[0] if pm_ps else None
     keys = first_items(returned_mapping(repo, SWEEP, pm))
-    sources = {
-        "element_ref": "_element", "param_expressions": "_expr_src", "variables": "_vars", "mode": "_mode", "broadcast": "_broadcast", "collection": "_collection_output", "dependencies": "_required_external",
-    }
+    # the class attribute each entry is read from, by role: an attribute of the described class that every generated
+    # class fills from the (public, keyword-only) parameter of the entry point that carries this part of the definition -
+    # whatever the private attribute is called
+    cnf = NF(repo, SWEEP, qualname_of(create))
+    gen_nf = [c for c in ast.walk(cnf) if isinstance(c, ast.ClassDef)]
+    create_params = set(_params_of(cnf))
+    sources: Dict[str, str] = {}
+    for k in sorted(SWEEP_META_KEYS):
+        wanted = set(_DEFINITION_PARAMS[k]) & create_params or create_params
+        for attr in sorted(_attrs_read_of(flow(pm, keys.get(k)), cls_p)):
+            filled = [[v for v in _class_attr_values(cnf, c, attr, gen_nf)] for c in gen_nf]
+            # (a kind of sweep for which the part is None - the parameter's annotation admits it - may leave the attribute out)
+            may_omit = all(_admits_none(cnf, p_) for p_ in wanted)
+            if any(filled) and all((vs or may_omit) and all(any(isinstance(x, ast.Name) and x.id in wanted for x in flow(cnf, v)) for v in vs) for vs in filled):
+                sources.setdefault(k, attr)
     where = pm_q
     for k in sorted(SWEEP_META_KEYS):
         v = keys.get(k)
-        R.check(v is not None and reads_attr(flow(pm, v), sources[k], cls_p), r, SWEEP, where, f"metadata[{k!r}] <- cls.{sources[k]}", f"the sweep's {k} does not reach the metadata that is hashed: changing it changes no id", pm.lineno)
+        part = "/".join(_DEFINITION_PARAMS[k])
+        R.check(v is not None and k in sources, r, SWEEP, where, f"metadata[{k!r}] <- class attribute holding {part}", f"the sweep's {k} does not reach the metadata that is hashed (the entry reads no attribute that every generated class fills from the factory's `{part}`): changing it changes no id", pm.lineno)
     R.check(bool(calls_to(flow(pm, keys.get("param_expressions")), "normalize_expression_sig_v1")), r, SWEEP, where, "param_expressions[*].sig = normalize_expression_sig_v1(source)", "expression signatures are not computed from the expression source", pm.lineno)
     R.check(bool(calls_to(flow(pm, keys.get("variables")), "variable_domain_signature")), r, SWEEP, where, "variables[*] = variable_domain_signature(spec)", "variable domains are not summarised by the domain signature", pm.lineno)
     # ... and every declared variable / every parameter expression gets its entry: the per-name mappings are built
     # element by element over the complete class attribute, nothing is skipped (the sweep iterates over all declared
     # variables, referenced by an expression or not)
     for k in ("variables", "param_expressions"):
-        attr = sources[k]
+        attr = sources.get(k)
+        if attr is None:
+            continue  # reported above
         is_root = lambda e, a=attr: reads_attr([e], a, cls_p)  # noqa: E731
         v = keys.get(k)
         whole = v is not None and derives_whole(repo, SWEEP, pm, v, set(), None, is_root, False)
-        R.check(whole, r, SWEEP, where, f"metadata[{k!r}] has one entry for every item of cls.{attr}", f"metadata[{k!r}] is built from a part of cls.{attr} only (filtered / sliced / not every item used): a sweep that differs in one of the left-out entries - e.g. the domain of a variable no expression reads, which still multiplies the produced items - keeps all its ids", getattr(v, "lineno", pm.lineno))
+        R.check(whole, r, SWEEP, where, f"metadata[{k!r}] has one entry for every item of the class attribute holding {'/'.join(_DEFINITION_PARAMS[k])}", f"metadata[{k!r}] is built from a part of cls.{attr} only (filtered / sliced / not every item used): a sweep that differs in one of the left-out entries - e.g. the domain of a variable no expression reads, which still multiplies the produced items - keeps all its ids", getattr(v, "lineno", pm.lineno))
     # every generated class publishes its definition (own hook or inherited from another generated class)
     gen = [c for mk in makers for c in ast.walk(mk) if isinstance(c, ast.ClassDef)]
     publishing = {c.name for c in gen if any(isinstance(v, ast.Call) and call_attr(v) == bname for v in _values_under_key(c, "preprocessor"))}
@@ -1711,6 +1759,10 @@ class _Frame:
         self.outer = outer
         self.caller = caller
         self.depth = (caller.depth + 1) if caller is not None else 0
+        # what "the field <name> of the analysed object" is in this analysis: 'attr' - `<obj>.<name>` / getattr(<obj>, name);
+        # 'key' - the entry `<mapping>.get(name[, default])` / `<mapping>[name]` of a configuration mapping;
+        # 'param' - the parameter <name> of the function the analysis started in (never re-bound there)
+        self.mode: str = caller.mode if caller is not None else outer.mode if outer is not None else "attr"
         self._g: Optional[CFG] = None
         a = getattr(fn, "args", None)
         self.params: List[str] = [x.arg for x in a.posonlyargs + a.args + a.kwonlyargs] + [x.arg for x in (a.vararg, a.kwarg) if x is not None] if isinstance(a, ast.arguments) else []
@@ -1757,8 +1809,10 @@ class _Frame:
         return False
 
 
-def _root_frame(repo: Repo, rel: str, fn: ast.AST, obj: Iterable[str]) -> _Frame:
-    return _Frame(repo, rel, fn, obj, outer=_Frame(repo, rel, repo.module(rel).tree))
+def _root_frame(repo: Repo, rel: str, fn: ast.AST, obj: Iterable[str], mode: str = "attr") -> _Frame:
+    top = _Frame(repo, rel, repo.module(rel).tree)
+    top.mode = mode
+    return _Frame(repo, rel, fn, obj, outer=top)
 
 
 def _defined_in(fr: _Frame, name: str) -> Optional[Tuple[ast.AST, _Frame]]:
@@ -1943,6 +1997,10 @@ def fflow(fr: _Frame, expr: Optional[ast.AST]) -> List[Tuple[_Frame, ast.AST]]:
 def reads_obj_attr(pairs: Iterable[Tuple[_Frame, ast.AST]], attr: str) -> bool:
     """`<obj>.attr` / `getattr(<obj>, 'attr', ..)` occurs in the slice, <obj> being a name of the analysed object."""
     for f, x in pairs:
+        if f.mode != "attr":
+            if _is_field_read(f, x, attr):
+                return True
+            continue
         if isinstance(x, ast.Attribute) and x.attr == attr and isinstance(x.value, ast.Name) and f.is_obj(x.value.id):
             return True
         if isinstance(x, ast.Call) and call_attr(x) == "getattr" and len(x.args) >= 2 and isinstance(x.args[1], ast.Constant) and x.args[1].value == attr and isinstance(x.args[0], ast.Name) and f.is_obj(x.args[0].id):
@@ -2079,6 +2137,29 @@ def _static_eval(e: ast.AST, env: Dict[str, object]) -> object:
     raise _Unknown
 
 
+def _annotated_domain(ann: Optional[ast.AST]) -> Tuple[str, Optional[List[object]]]:
+    """(declared type, finite value list or None) an annotation states: `bool`, `Literal[..]`, a plain scalar type."""
+    typ: str = "any"
+    values: Optional[List[object]] = None
+    if isinstance(ann, ast.Constant) and isinstance(ann.value, str):
+        try:
+            ann = ast.parse(ann.value, mode="eval").body
+        except SyntaxError:
+            return typ, values
+    if isinstance(ann, ast.Name) and ann.id in _FALSY_OF:
+        typ = ann.id
+    elif isinstance(ann, ast.Subscript) and (dotted_name(ann.value) or "").rpartition(".")[2] == "Literal":
+        elts = ann.slice.elts if isinstance(ann.slice, ast.Tuple) else [ann.slice]
+        if elts and all(isinstance(x, ast.Constant) for x in elts):
+            values = [x.value for x in elts]
+            tn = type(values[0]).__name__
+            if tn in _FALSY_OF and all(type(v).__name__ == tn for v in values):
+                typ = tn
+    if typ == "bool":
+        values = [False, True]
+    return typ, values
+
+
 def _field_domains(cdef: ast.ClassDef) -> Dict[str, Tuple[str, Optional[List[object]], bool]]:
     """{field: (declared type, finite value list or None, can the falsy value of the type occur)} of a dataclass:
     from the annotation (`Literal[..]` lists the values) and from the guards of `__post_init__` that raise."""
@@ -2092,19 +2173,7 @@ def _field_domains(cdef: ast.ClassDef) -> Dict[str, Tuple[str, Optional[List[obj
     for st in cdef.body:
         if not (isinstance(st, ast.AnnAssign) and isinstance(st.target, ast.Name)):
             continue
-        ann = st.annotation
-        typ, values = "any", None
-        if isinstance(ann, ast.Name) and ann.id in _FALSY_OF:
-            typ = ann.id
-        elif isinstance(ann, ast.Subscript) and (dotted_name(ann.value) or "").rpartition(".")[2] == "Literal":
-            elts = ann.slice.elts if isinstance(ann.slice, ast.Tuple) else [ann.slice]
-            if elts and all(isinstance(x, ast.Constant) for x in elts):
-                values = [x.value for x in elts]
-                tn = type(values[0]).__name__
-                if tn in _FALSY_OF and all(type(v).__name__ == tn for v in values):
-                    typ = tn
-        if typ == "bool":
-            values = [False, True]
+        typ, values = _annotated_domain(st.annotation)
         falsy_occurs = True
         if typ in _FALSY_OF:
             fv = _FALSY_OF[typ]
@@ -2127,7 +2196,24 @@ class _Image:
         self.kept = 0
 
 
+def _key_read(e: ast.AST) -> Optional[Tuple[object, ast.AST]]:
+    """(constant key, mapping expression) when *e* reads one entry of a mapping: `m[k]`, `m.get(k[, default])`."""
+    if isinstance(e, ast.Subscript) and isinstance(e.ctx, ast.Load) and isinstance(e.slice, ast.Constant):
+        return e.slice.value, e.value
+    if isinstance(e, ast.Call) and isinstance(e.func, ast.Attribute) and e.func.attr == "get" and 1 <= len(e.args) <= 2 and not e.keywords and isinstance(e.args[0], ast.Constant):
+        return e.args[0].value, e.func.value
+    return None
+
+
 def _is_field_read(fr: _Frame, e: ast.AST, field: str) -> bool:
+    if fr.mode == "key":
+        kr = _key_read(e)
+        return kr is not None and kr[0] == field
+    if fr.mode == "param":
+        if not (isinstance(e, ast.Name) and isinstance(e.ctx, ast.Load) and e.id == field):
+            return False
+        h = fr.home(e.id)
+        return h is not None and h.caller is None and e.id in h.params and not name_values(h.fn, e.id)
     if isinstance(e, ast.Attribute) and e.attr == field and isinstance(e.value, ast.Name) and fr.is_obj(e.value.id):
         return True
     return isinstance(e, ast.Call) and call_attr(e) == "getattr" and isinstance(e.func, ast.Name) and 2 <= len(e.args) <= 3 and isinstance(e.args[1], ast.Constant) and e.args[1].value == field and isinstance(e.args[0], ast.Name) and fr.is_obj(e.args[0].id)
@@ -2146,7 +2232,26 @@ def _absence_test(fr: _Frame, test: ast.AST, field: str) -> Optional[bool]:
             return False
     if isinstance(test, ast.Call) and call_attr(test) == "hasattr" and len(test.args) == 2 and isinstance(test.args[1], ast.Constant) and test.args[1].value == field and isinstance(test.args[0], ast.Name) and fr.is_obj(test.args[0].id):
         return False
+    if fr.mode == "key" and isinstance(test, ast.Compare) and len(test.ops) == 1 and isinstance(test.left, ast.Constant) and test.left.value == field and isinstance(test.ops[0], (ast.In, ast.NotIn)):
+        return isinstance(test.ops[0], ast.NotIn)  # `'field' in mapping`: the entry is there
     return None
+
+
+def _value_test(e: ast.AST) -> bool:
+    """*e* is a test on the *value* of something (a comparison that is no None / presence test, or and / or / not of
+    such): it can come out either way for a present, well-typed value."""
+    if isinstance(e, ast.UnaryOp) and isinstance(e.op, ast.Not):
+        return _value_test(e.operand)
+    if isinstance(e, ast.BoolOp):
+        return all(_value_test(v) for v in e.values)
+    if isinstance(e, ast.Compare):
+        sides = [e.left] + list(e.comparators)
+        if any(isinstance(s_, ast.Constant) and s_.value is None for s_ in sides):
+            return False
+        if any(isinstance(o, (ast.In, ast.NotIn)) for o in e.ops) and isinstance(e.left, ast.Constant):
+            return False  # `'key' in mapping`: a presence test
+        return True
+    return False
 
 
 def _reads_field_only(fr: _Frame, e: ast.AST, field: str) -> bool:
@@ -2159,6 +2264,54 @@ def _reads_field_only(fr: _Frame, e: ast.AST, field: str) -> bool:
             vals = name_values(h.fn, e.id)
             return len(vals) == 1 and _reads_field_only(h, vals[0], field)
     return False
+
+
+def _rebound_field(h: _Frame, use: ast.Name, bound: List[ast.AST], dep, rec, out: _Image, field: str) -> bool:
+    """The local read at *use* has bindings that are computed from the field and bindings that are not.  Decided on the
+    control-flow graph of its scope: only the bindings that reach the use count; a field-independent one made *after* a
+    field-dependent one, under a condition that is a test on the value of something else, replaces every value of the
+    field by one (`if mode != 'by_position': broadcast = False`).  False when the shape is not understood."""
+    g = h.g
+    if g is None or parent(use) is None:
+        return False
+    try:
+        use_nodes = g.nodes_for(stmt_of(use))
+    except Exception:
+        return False
+    if not use_nodes:
+        return False
+
+    def node_of(v: ast.AST) -> Optional[int]:
+        try:
+            ns = g.nodes_for(stmt_of(v))
+        except Exception:
+            return None
+        return ns[0] if ns else None
+
+    rd = {d.id for d in reaching_defs(g, use.id, use_nodes[0])}
+    reach_d = [v for v in bound if dep(v, h) and node_of(v) in rd]
+    reach_i = [v for v in bound if not dep(v, h) and node_of(v) in rd]
+    if not reach_d or len(reach_d) + len(reach_i) != len(rd):
+        return False
+    verdicts: List[Tuple[ast.AST, str]] = []
+    for iv in reach_i:
+        inode = node_of(iv)
+        ist = stmt_of(iv)
+        dsts = [stmt_of(dv) for dv in reach_d]
+        after = any(inode in g.reach([t for t, _l in g.succ[node_of(dv)]]) for dv in reach_d)  # type: ignore[index]
+        guards = [a.test for a in ancestors(ist) if isinstance(a, ast.If) and not any(x is d for d in dsts for x in ast.walk(a))]
+        if after and guards and all(_value_test(t) and not dep(t, h) for t in guards):
+            verdicts.append((ist, f"`{use.id} = {_u(iv)[:30]}` under `{_u(guards[0])[:50]}` replaces every value of `{field}` by one"))
+            continue
+        # a default put first, the field read afterwards where it is present: no two values of the field coincide
+        dguards = [[a.test for a in ancestors(d) if isinstance(a, ast.If) and not any(x is ist for x in ast.walk(a))] for d in dsts]
+        if not after and all(gs and all(_absence_test(h, t, field) is not None for t in gs) for gs in dguards):
+            continue
+        return False
+    out.lossy.extend(verdicts)
+    for v in reach_d:
+        rec(v, h)
+    return True
 
 
 def _field_image(fr: _Frame, e: Optional[ast.AST], field: str, dom: Tuple[str, Optional[List[object]], bool], out: _Image, seen: Set[Tuple[int, str]], depth: int = 0) -> None:
@@ -2207,11 +2360,17 @@ def _field_image(fr: _Frame, e: Optional[ast.AST], field: str, dom: Tuple[str, O
             out.lossy.append((at, f"`{_u(at)[:70]}` replaces every truthy value of `{field}` by one value"))
             return
         if not is_c:
+            if falsy_occurs and typ == "bool" and _value_test(d) and not dep(d):
+                out.lossy.append((at, f"`{_u(at)[:70]}` is False for every value of `{field}` whenever `{_u(d)[:50]}` does not hold"))
+                return
             out.unknown.append(at)
             return
         if falsy_occurs and typ in _FALSY_OF and dv == _FALSY_OF[typ]:
             out.lossy.append((at, f"`{_u(at)[:70]}` gives {dv!r} for every value of `{field}`"))
 
+    if fr.mode != "attr" and _is_field_read(fr, e, field):
+        out.kept += 1
+        return
     if isinstance(e, ast.Name):
         h = fr.home(e.id)
         if h is None:
@@ -2227,7 +2386,10 @@ def _field_image(fr: _Frame, e: Optional[ast.AST], field: str, dom: Tuple[str, O
             rec(bv, bf)
             return
         if not bound or not all(dep(v, h) for v in bound):
-            out.unknown.append(e)  # also bound to something that is no function of the field: decided by control flow
+            # also bound to something that is no function of the field: decided by control flow - which bindings reach
+            # this use, and under what condition a field-independent one replaces the field
+            if not _rebound_field(h, e, bound, dep, rec, out, field):
+                out.unknown.append(e)
             return
         for v in bound:  # element-wise through tuple unpacking
             rec(v, h)
@@ -2271,6 +2433,9 @@ def _field_image(fr: _Frame, e: Optional[ast.AST], field: str, dom: Tuple[str, O
             if absent != taken_when:
                 out.lossy.append((e, f"`{_u(e)[:70]}` puts a default for every present value of `{field}`"))
             return
+        if not dep(e.test) and _value_test(e.test):
+            out.lossy.append((e, f"`{_u(e)[:70]}` gives `{_u(default)[:30]}` for every value of `{field}` whenever `{_u(e.test)[:50]}` {'holds' if taken_when else 'does not hold'}"))
+            return
         core, truthy_when = e.test, True
         if isinstance(core, ast.UnaryOp) and isinstance(core.op, ast.Not):
             core, truthy_when = core.operand, False
@@ -2292,7 +2457,9 @@ def _field_image(fr: _Frame, e: Optional[ast.AST], field: str, dom: Tuple[str, O
             return
         if bd and not ad:
             is_c, av = const(a)
-            if not is_c:
+            if not is_c and _value_test(a):
+                out.lossy.append((e, f"`{_u(e)[:70]}` does not depend on `{field}` whenever `{_u(a)[:50]}` {'holds' if isinstance(e.op, ast.Or) else 'does not hold'}"))
+            elif not is_c:
                 out.unknown.append(e)
             elif bool(av) == isinstance(e.op, ast.Or):
                 out.lossy.append((e, f"`{_u(e)[:70]}` never evaluates to `{field}`"))
@@ -2347,6 +2514,9 @@ def _field_image(fr: _Frame, e: Optional[ast.AST], field: str, dom: Tuple[str, O
                 rec(e.args[0])
             else:
                 out.lossy.append((e, f"`{_u(e)[:70]}` narrows the {typ} field `{field}`"))
+            return
+        if nm == "cast" and len(e.args) == 2 and not e.keywords and _defined_in(fr, "cast") is None:
+            rec(e.args[1])  # typing.cast returns its second argument
             return
         entered = _entered(fr, e)
         if entered:
@@ -2566,6 +2736,203 @@ def positional_and_domains(repo: Repo, R: Report) -> None:
 
 
 # ---------------------------------------------------------------------------------------------------------
+# D7  the finite-valued parts of a sweep definition keep their values apart from the configuration to the metadata
+# ---------------------------------------------------------------------------------------------------------
+
+def _class_attr_values(fn: ast.AST, cdef: ast.ClassDef, attr: str, gen: List[ast.ClassDef], _seen: Optional[Set[int]] = None) -> List[ast.AST]:
+    """What the class *cdef* (generated inside *fn*) holds in its attribute *attr*: assignments of its body, stores
+    `<Class>.attr = v` made by *fn* afterwards, otherwise what a generated base class holds."""
+    _seen = _seen if _seen is not None else set()
+    if id(cdef) in _seen:
+        return []
+    _seen.add(id(cdef))
+    out: List[ast.AST] = []
+    for st in cdef.body:
+        if isinstance(st, ast.Assign) and any(isinstance(t, ast.Name) and t.id == attr for t in st.targets):
+            out.append(st.value)
+        elif isinstance(st, ast.AnnAssign) and isinstance(st.target, ast.Name) and st.target.id == attr and st.value is not None:
+            out.append(st.value)
+    for n in ast.walk(fn):
+        if isinstance(n, ast.Assign) and any(isinstance(t, ast.Attribute) and t.attr == attr and isinstance(t.value, ast.Name) and t.value.id == cdef.name for t in n.targets):
+            out.append(n.value)
+        elif isinstance(n, ast.Call) and call_attr(n) == "setattr" and len(n.args) == 3 and isinstance(n.args[0], ast.Name) and n.args[0].id == cdef.name and isinstance(n.args[1], ast.Constant) and n.args[1].value == attr:
+            out.append(n.args[2])
+    if not out:
+        for b in cdef.bases:
+            base = next((c for c in gen if c.name == dotted_name(b)), None)
+            if base is not None:
+                out.extend(_class_attr_values(fn, base, attr, gen, _seen))
+    return out
+
+
+def _config_keys_read(fr: _Frame, e: ast.AST) -> Set[object]:
+    """Constant keys of the configuration entries the value of *e* is computed from: the `m[k]` / `m.get(k)` reads of
+    its backward slice, without the reads that only lead to the mapping another entry is read from."""
+    reads: List[Tuple[ast.AST, object, ast.AST]] = []
+    for _f, x in fflow(fr, e):
+        kr = _key_read(x)
+        if kr is not None and isinstance(kr[0], str):
+            reads.append((x, kr[0], kr[1]))
+    base_ids = {id(y) for _x, _k, recv in reads for y in ast.walk(recv)}
+    return {k for x, k, _recv in reads if id(x) not in base_ids}
+
+
+def _verdict(img: _Image) -> str:
+    return "lossy" if img.lossy else "unknown" if img.unknown or not img.kept else "clean"
+
+
+def sweep_field_values_handed_over(repo: Repo, R: Report) -> None:
+    """`mode` and `broadcast` (the finite-valued parts of a sweep definition) travel a long way before they are hashed:
+    configuration entry -> argument of the sweep factory's entry point -> attribute of the generated class -> entry of
+    the published definition (-> node semantic id, D1 / D2).  D2 decides that the last hop *reads* the attribute; this
+    rule decides that every hop keeps the values apart.  A hop that computes the value handed on from the field *and*
+    something else (`broadcast and mode == 'by_position'`: "broadcast means nothing for a combinatorial sweep") maps
+    two settings of the field to one generated class, one definition, one set of ids."""
+    r = R.rule("C05-D7-sweep-field-values-handed-over", "every finite-valued part of a sweep definition (a parameter of the sweep factory's entry point annotated bool / Literal[..] that the generated classes keep in an attribute the published definition reads: mode, broadcast) keeps distinct values distinct on every hop from the configuration to the published definition: where code of the package calls the entry point with values read from a configuration mapping, the argument for it is the entry itself or an injective image of it (not and-ed / or-ed / switched with another field so that two values coincide, no constant in its place); every generated class stores an injective image of the parameter; the published definition is an injective image of the attribute", 6)
+    create, makers, pm0, pm_q, bname, _hv = _sweep_factory(repo)
+    create_q = qualname_of(create)
+    cnf = NF(repo, SWEEP, create_q)
+    pm = NF(repo, SWEEP, pm_q)
+    pm_ps = _params_of(pm)
+    if isinstance(parent(pm0), ast.ClassDef) and not any(dotted_name(d) == "staticmethod" for d in pm0.decorator_list):
+        pm_ps = pm_ps[1:]
+    cls_p = pm_ps[0] if pm_ps else None
+    if cls_p is None:
+        raise AnalysisError(f"{pm_q}: the parameter that receives the generated class was not found")
+    keys = first_items(returned_mapping(repo, SWEEP, pm))
+    # attributes of the generated class the published definition reads, with the entries that read them
+    meta_attrs: Dict[str, List[str]] = {}
+    for k in sorted(SWEEP_META_KEYS):
+        for a in sorted(_attrs_read_of(flow(pm, keys.get(k)), cls_p)):
+            meta_attrs.setdefault(a, []).append(k)
+    gen_all = [c for mk in makers for c in ast.walk(mk) if isinstance(c, ast.ClassDef)]
+    gen = [c for c in ast.walk(cnf) if isinstance(c, ast.ClassDef)]
+    if not gen or len(gen) < len(gen_all):
+        raise AnalysisError(f"{create_q}: {len(gen_all)} generated classes in the factory, {len(gen)} in the normal form of the entry point")
+    # the finite-valued parameters of the entry point, and which of them the generated classes keep for the definition
+    cargs = cnf.args
+    all_params = cargs.posonlyargs + cargs.args + cargs.kwonlyargs
+    finite: Dict[str, Tuple[str, Optional[List[object]], bool]] = {}
+    for a_ in all_params:
+        typ, values = _annotated_domain(a_.annotation)
+        if values is not None:
+            finite[a_.arg] = (typ, values, typ not in _FALSY_OF or _FALSY_OF[typ] in values)
+    kept_in: Dict[str, List[Tuple[ast.ClassDef, str, ast.AST]]] = {}
+    for c in gen:
+        for attr in meta_attrs:
+            for v in _class_attr_values(cnf, c, attr, gen):
+                for p_ in finite:
+                    if any(isinstance(x, ast.Name) and x.id == p_ for x in flow(cnf, v)) and not name_values(cnf, p_):
+                        kept_in.setdefault(p_, []).append((c, attr, v))
+    ident = sorted(kept_in)
+    if not ident:
+        raise AnalysisError(f"{create_q}: no bool / Literal parameter is kept by the generated classes in an attribute the published definition reads (mode, broadcast expected)")
+    cfr = _root_frame(repo, SWEEP, cnf, [], mode="param")
+    pfr = _root_frame(repo, SWEEP, pm, [cls_p])
+    for p_ in ident:
+        dom = finite[p_]
+        # (ii) every generated class keeps an injective image of the parameter
+        holding: Set[str] = set()  # the attributes that hold the parameter (an injective image of it) in some generated class
+        for c in gen:
+            rows = [(attr, v) for c2, attr, v in kept_in[p_] if c2 is c]
+            stmt = f"class {c.name}: <attribute the definition reads> = {p_}"
+            if not rows:
+                R.violation(r, SWEEP, create_q, stmt, f"the generated class `{c.name}` keeps nothing of the parameter `{p_}` in an attribute the published definition reads ({', '.join(sorted(meta_attrs))}): for this kind of sweep two definitions that differ in `{p_}` publish one definition, hence share node semantic id, semantic id and config id", c.lineno)
+                continue
+            imgs = []
+            for attr, v in rows:
+                img = _Image()
+                _field_image(cfr, v, p_, dom, img, set())
+                imgs.append((attr, v, img))
+            holding |= {attr for attr, _v, i in imgs if _verdict(i) == "clean"}
+            if any(_verdict(i) == "clean" for _a, _v, i in imgs):
+                R.ok(r, SWEEP, create_q, stmt, "", c.lineno)
+                continue
+            lossy = [(attr, v, node, why) for attr, v, i in imgs for node, why in i.lossy]
+            if not lossy:
+                raise AnalysisError(f"{create_q}: `{c.name}.{imgs[0][0]} = {_u(imgs[0][1])[:60]}` is computed from `{p_}` in a way that is not understood")
+            for attr, v, node, why in lossy[:1]:
+                R.violation(r, SWEEP, create_q, stmt, f"`{c.name}.{attr} = {_u(v)[:60]}` maps two values of the parameter `{p_}` to one ({why}): sweeps that differ only in `{p_}` publish one definition, hence share node semantic id, semantic id and config id", getattr(node, "lineno", c.lineno))
+        # (iii) the published definition is an injective image of the attribute
+        for attr in sorted(holding):
+            for k in meta_attrs[attr]:
+                img = _Image()
+                _field_image(pfr, keys.get(k), attr, dom, img, set())
+                stmt = f"definition[{k!r}] <- <generated class>.<attribute holding {p_}>"
+                if _verdict(img) == "clean":
+                    R.ok(r, SWEEP, pm_q, stmt, "", pm.lineno)
+                elif img.lossy:
+                    node, why = img.lossy[0]
+                    R.violation(r, SWEEP, pm_q, stmt, f"the published definition's {k!r} maps two values of `{p_}` (held in `{attr}`) to one ({why}): sweeps that differ only there share node semantic id, semantic id and config id", getattr(node, "lineno", pm.lineno))
+                else:
+                    raise AnalysisError(f"{pm_q}: definition[{k!r}] is computed from the class attribute `{attr}` in a way that is not understood")
+    # (i) the callers: every function of the package in whose normal form a call of the entry point appears
+    direct: Dict[str, Set[str]] = {}
+    for m, qn, f in repo.all_functions():
+        if f is create:
+            continue
+        for c in calls_in(f):
+            if c.args or c.keywords:
+                if any(tn is create for _tm, tn in repo.resolve_call(m, c)):
+                    d = dotted_name(c.func)
+                    if d:
+                        direct.setdefault(m.rel, set()).add(d)
+    judged: Dict[str, int] = {p_: 0 for p_ in ident}
+    seen_sites: Set[Tuple[str, str, str]] = set()
+    for rel in sorted(direct):
+        repo.consulted.add(rel)
+        mod = repo.module(rel)
+        for qn, f in sorted(mod.defs.items()):
+            if not isinstance(f, FuncNode) or any(isinstance(a, FuncNode) for a in ancestors(f)):
+                continue
+            if not any(isinstance(c, ast.Call) and dotted_name(c.func) in direct[rel] for c in ast.walk(f)) and not any(isinstance(c, ast.Call) and _local_callee(repo, rel, f, c) is not None for c in walk_no_nested(f)):
+                continue
+            nf = NF(repo, rel, qn)
+            sites = [c for c in walk_no_nested(nf) if isinstance(c, ast.Call) and dotted_name(c.func) in direct[rel]]
+            if not sites:
+                continue
+            fr = _root_frame(repo, rel, nf, [], mode="key")
+            for c in sites:
+                bound = _bound_args(create, c)
+                per: Dict[str, Set[object]] = {}
+                for p_ in ident:
+                    a = bound.get(p_)
+                    per[p_] = _config_keys_read(fr, a) if a is not None and not isinstance(a, ast.Constant) else set()
+                if not any(per.values()):
+                    continue  # nothing here comes from a configuration mapping (a helper handing its parameters on)
+                for p_ in ident:
+                    a = bound.get(p_)
+                    stmt = f"{dotted_name(c.func)}(.., {p_}=<configuration entry>)"
+                    tag = (rel, qn, stmt)
+                    if a is None or isinstance(a, ast.Constant):
+                        judged[p_] += 1
+                        R.violation(r, rel, qn, stmt, f"`{_u(c)[:50]}..` builds a sweep from a configuration mapping but gives `{p_}` {'no value' if a is None else 'the constant ' + _u(a)}: the documented field cannot change the generated class, so configurations that differ only in it share node semantic id, semantic id and config id", c.lineno)
+                        continue
+                    if not per[p_]:
+                        raise AnalysisError(f"{rel}:{qn}: the value handed to the sweep factory for `{p_}` (`{_u(a)[:60]}`) is not computed from a configuration entry while other parts of the definition are")
+                    imgs2: List[Tuple[object, _Image]] = []
+                    for k in sorted(per[p_], key=str):
+                        img = _Image()
+                        _field_image(fr, a, k, finite[p_], img, set())  # type: ignore[arg-type]
+                        imgs2.append((k, img))
+                    judged[p_] += 1
+                    if any(_verdict(i) == "clean" for _k, i in imgs2):
+                        if tag not in seen_sites:
+                            R.ok(r, rel, qn, stmt, "", c.lineno)
+                        seen_sites.add(tag)
+                        continue
+                    own = [(k, i) for k, i in imgs2 if i.lossy and i.kept] or [(k, i) for k, i in imgs2 if i.lossy]
+                    if not own:
+                        raise AnalysisError(f"{rel}:{qn}: the value handed to the sweep factory for `{p_}` (`{_u(a)[:80]}`) is computed from the configuration in a way that is not understood")
+                    k, img = own[0]
+                    node, why = img.lossy[0]
+                    R.violation(r, rel, qn, stmt, f"the value the sweep factory receives for `{p_}` maps two values of the configuration entry {k!r} to one ({why}): both settings generate the same class and publish the same definition, so configurations that differ only in {k!r} share node semantic id, semantic id and config id", getattr(node, "lineno", c.lineno))
+    missing = [p_ for p_ in ident if not judged[p_]]
+    if missing:
+        raise AnalysisError(f"no call of {create_q} with a value for {missing} read from a configuration mapping was found in the package")
+
+
+# ---------------------------------------------------------------------------------------------------------
 # D6  the configuration that is canonicalised is the declared one
 # ---------------------------------------------------------------------------------------------------------
 
@@ -2688,6 +3055,7 @@ def run(repo: Repo, R: Report) -> None:
     rollup_sees_enrichment(repo, R)
     positional_and_domains(repo, R)
     canonicalised_config_is_declared(repo, R)
+    sweep_field_values_handed_over(repo, R)
     # an expression signature that merges expressions of different value makes two different sweeps share an id:
     # the discrimination half of C12 (only +/* chains of one operator are flattened; every other position is
     # kept in order) is a necessary condition of C05 as well
